@@ -33,6 +33,10 @@ fn decorated_reserved() -> Vec<String> {
     }
     // names people actually use for claims, incl. the specification's footer claim names (kid, wpk) and the
     // JWT header / payload vocabulary: none of them is reserved
+    for u in ["https://example.com/claims/roles", "urn:example:claim:department-identifier-with-a-long-name", "x-custom-claim-name-that-is-longer-than-thirty-two-bytes"] {
+        v.push(u.to_string());
+    }
+    v.push("k".repeat(300));
     for u in ["kid", "wpk", "nonce", "scope", "scp", "role", "roles", "name", "email", "typ", "alg", "cty", "azp", "sid", "uid", "user", "userId", "userid", "id", "key", "ver", "version", "purpose", "footer", "implicit", "assertion", "claims", "payload", "token", "exp1", "exp_", "_exp", "iss2", "sub-1", "aud[]", "jti.", "expiration", "not_before", "issued_at", "k", "w", "d"] {
         v.push(u.to_string());
     }
@@ -289,7 +293,10 @@ pub fn run(tier: &str) -> i32 {
     let mut nacc = Acc::default();
     for s in non_date_strings() {
         nacc.see(&s);
-        check_time_string(&s, Some(false), &mut nacc);
+        // a string that starts with a digit might be an ISO 8601 reduced-precision / basic-format date for
+        // some parser: only strings that cannot start a date are constrained
+        let starts_like_a_date = s.chars().next().map_or(false, |c| c.is_ascii_digit()) && s.len() <= 3;
+        check_time_string(&s, if starts_like_a_date { None } else { Some(false) }, &mut nacc);
         nacc.choice_points += 1;
     }
     // a strict string travels verbatim through a token as exp / nbf / iat
